@@ -650,7 +650,7 @@ package storage
 // Shutting a store down: the timer is stopped (ghost: the store no longer counts as open) and a complete flush is made.
 //@ func (f *fileStore) close() error
 //@   props C04 C17
-//@   requires txn == 0 && cacheOK(f) && (f.autoFlushCache ==> f.ticker != nil)
+//@   requires[idle] txn == 0 && cacheOK(f) && (f.autoFlushCache ==> f.ticker != nil)
 //@   modifies txn, all(btreeNode.dirty), @cacheState, storeState, written, fdata(f.file), fsize(f.file), openStores
 //@   ensures[unlock; C13] txn == 0
 //@   ensures[flushed; C04] result == nil ==> headerIs(f) && (forall k any :: has(f.cache.cache, k) ==> !centry(f.cache.cache[k]).val.dirty)
@@ -661,11 +661,16 @@ package storage
 //@   trusted
 //@   modifies storeState
 
+// Closing a relation service shuts its store down on every path: whatever closing the log reports, the flush timer is stopped and
+// the data file closed (ghost: the store no longer counts as open). Assumed and listed: the service is closed between statements
+// and was built by OpenRelation or CreateDB, i.e. with cache and flush timer set up (A-CLOSE, A-TIMER).
 //@ func (rs *RelationService) Close() error
 //@   props C17
-//@   trusted
-//@   modifies storeState, openStores
-//@   ensures openStores == old(openStores) - 1
+//@   requires rs != nil && rs.fs != nil && rs.wal != nil
+//@   assume[A-TIMER] rs.fs.autoFlushCache
+//@   assumepre (*fileStore).close.idle A-CLOSE: a relation service is closed between statements (no lock held) and was built by OpenRelation or CreateDB (cache and flush timer set up)
+//@   modifies txn, all(btreeNode.dirty), @cacheState, storeState, written, fdata, fsize, openStores
+//@   ensures[stores; C17] openStores == old(openStores) - 1
 
 // ---- value validation (C08) ----
 
